@@ -263,13 +263,20 @@ func (r *run) auto() {
 	froms := []string{"", A.Addrs[0].Std, A.Addrs[1].Std, foreign}
 	changes := []string{"", A.Addrs[1].Std, S}
 	payloads := [][]byte{nil, bytes.Repeat([]byte{7}, 32)}
+	lockTimes := []uint64{0, 1}
+	if len(r.eligibleList("")) >= 100 {
+		// hundreds of coins: every request walks the whole unspent index and builds transactions
+		// with hundreds of inputs. These shapes are about the input cap: the amount axis is kept,
+		// the other axes (explored on the small shapes) are reduced to their first value
+		fees, froms, changes, payloads, lockTimes = fees[:1], froms[:1], changes[:1], payloads[:1], lockTimes[:1]
+	}
 	for _, a1 := range amounts {
 		if a1 <= 0 {
 			continue
 		}
 		for _, two := range []bool{false, true} {
 			for _, uf := range fees {
-				for _, lt := range []uint64{0, 1} {
+				for _, lt := range lockTimes {
 					for _, from := range froms {
 						if from == "" && len(froms) == 0 {
 							continue
